@@ -20,7 +20,9 @@ func init() {
 			{ID: "C11.1", Doc: "announced endpoint construction", Floor: 2, Run: c11r1},
 			{ID: "C11.2", Doc: "same key in and out", Floor: 2, Run: c11r2},
 			{ID: "C11.3", Doc: "values only through the BEP 32 filter", Floor: 2, Run: c11r3},
-			{ID: "C11.5", Doc: "bundled in-memory store", Floor: 6, Run: c11r5},
+			{ID: "C11.6 on the accepted-announce path the acknowledgement is preceded by PeerStore.AddPeer unless no store is configured, whatever other hooks are set; filterPeers returns each kept entry in the address form of the family it was kept for; " +
+			"C11.5", Doc: "bundled in-memory store", Floor: 6, Run: c11r5},
+			{ID: "C11.6", Doc: "an accepted announce reaches the peer store whenever one is configured", Floor: 1, Run: c11r6},
 		},
 	})
 }
@@ -212,6 +214,38 @@ func c11r3(w *World, rr *RuleRun) {
 	if n == 0 {
 		rr.Oblige(shortFuncName(fp), "filterPeers appends entries", w.P.Pos(fp.Pos()), false, "no append")
 	}
+	// the form selected for an entry matches the family it is retained for (BEP 32 sizes: 6 / 18 bytes)
+	nSel := 0
+	for _, cl := range allAnon(fp) {
+		if cl.Signature.Results().Len() != 2 || !isBoolType(cl.Signature.Results().At(1).Type()) || len(cl.Params) != 1 {
+			continue
+		}
+		ipP := w.TS.Of(cl.Params[0])
+		ff := w.FE.analysisFor(cl)
+		for _, ex := range ff.exits {
+			for _, alt := range ex.st {
+				if !w.FE.Resolve(alt, ex.ret.Results[1]).IsConst("true") {
+					continue
+				}
+				nSel++
+				r0 := w.FE.Resolve(alt, ex.ret.Results[0])
+				lenIs := func(t *Term, n string) bool {
+					return alt.Has("b", true, func(x *Term) bool {
+						return x.Op == OpBin && x.Name == "==" && ((x.Args[0].IsConst(n) && x.Args[1].Op == OpLen && termEq(x.Args[1].Args[0], t)) || (x.Args[1].IsConst(n) && x.Args[0].Op == OpLen && termEq(x.Args[0].Args[0], t)))
+					})
+				}
+				conv := func(name string) bool {
+					return r0.Op == OpCall && strings.HasSuffix(r0.Name, "."+name) && alt.HasKey("n", r0, true)
+				}
+				v4 := gate(alt, srn) && ((termEq(r0, ipP) && lenIs(ipP, "4")) || conv("To4"))
+				v6 := gate(alt, srn6) && ((termEq(r0, ipP) && lenIs(ipP, "16")) || conv("To16"))
+				rr.At(w, ex.ret, "an entry kept for an IPv4 requester is returned in 4-byte form, one kept for an IPv6 requester in 16-byte form", v4 || v6, "returns "+trunc(r0.String(), 100)+fmt.Sprintf(" (v4 ok: %v, v6 ok: %v)", v4, v6))
+			}
+		}
+	}
+	if nSel == 0 {
+		rr.Oblige(shortFuncName(fp), "filterPeers selects an address form per entry", w.P.Pos(fp.Pos()), false, "no selecting closure recognised")
+	}
 }
 
 func c11r5(w *World, rr *RuleRun) {
@@ -316,4 +350,40 @@ func mapFiledUnder(w *World, fn *ssa.Function, m ssa.Value, ih *Term) bool {
 		}
 	}
 	return ok
+}
+
+// c11r6: on the accepted-announce path the reply is preceded by PeerStore.AddPeer unless no store
+// is configured - independently of any other hook.
+func c11r6(w *World, rr *RuleRun) {
+	h := w.handler()
+	peerStore := w.P.Field("", "ServerConfig", "PeerStore")
+	n := 0
+	for _, site := range w.CallsIn(h.fn, h.reply, true) {
+		cases := h.casesAt(w, site)
+		isAnn := false
+		for _, c := range cases {
+			if c == "announce_peer" {
+				isAnn = true
+			}
+		}
+		if !isAnn {
+			continue
+		}
+		n++
+		w.Require(rr, site, "an announce is acknowledged only after it was handed to the configured peer store", func(alt *Alt) (bool, string) {
+			if h.caseOf(alt) != "announce_peer" {
+				return true, "other method"
+			}
+			if alt.Called("AddPeer", func(s *Term) bool { return isFieldTerm(s, peerStore) }) {
+				return true, "PeerStore.AddPeer called"
+			}
+			if alt.Has("n", false, func(x *Term) bool { return isFieldTerm(x, peerStore) }) {
+				return true, "no peer store configured"
+			}
+			return false, "a path acknowledges the announce without storing the peer although a store may be configured"
+		})
+	}
+	if n == 0 {
+		rr.Oblige(shortFuncName(h.fn), "the announce_peer branch replies", w.P.Pos(h.fn.Pos()), false, "no reply site in the announce_peer case")
+	}
 }
